@@ -47,10 +47,42 @@ def tus(tier, seed):
     # unary minus / shifts by a constant at digit counts that exactly fill the storage type (always)
     body = '#include "%s"\nint main(){ install(); Rng rng(seed_from_env()+4242);\n' % (__file__.replace('.py', '.h'))
     for (d, n, k) in [(8, 'u8', 1), (16, 'u16', 2), (32, 'u32', 3), (64, 'u64', 5), (32, 'u8', 1), (16, 'u8', 8), (64, 'u32', 8),
-                      (7, 'i8', 1), (15, 'i16', 2), (31, 'i32', 3), (63, 'i64', 5), (31, 'i8', 4), (63, 'i32', 1), (33, 'u32', 2)]:
+                      (7, 'i8', 1), (15, 'i16', 2), (31, 'i32', 3), (63, 'i64', 5), (31, 'i8', 4), (63, 'i32', 1), (33, 'u32', 2),
+                      (40, 'i32', 31), (40, 'i32', 32), (64, 'i32', 63), (64, 'i64', 63), (64, 'u32', 63), (63, 'i32', 31), (33, 'u32', 32), (20, 'i8', 7), (20, 'i16', 15), (20, 'u8', 8)]:
         body += '  un<%d, %s, %d>(rng);\n' % (d, CT[n], k)
     body += '}\n'
     res.append(dict(name='C05_unary_full', src=body, compiler='g++'))
+    # elastic_scaled_integer pairs with different exponents; scale<-K> of the elastic representation
+    es = [(20, 'i32', -20, 20, 'i32', 0), (20, 'i32', 0, 20, 'i32', -20), (12, 'u8', -12, 4, 'u8', 0), (7, 'i8', -3, 9, 'i16', 5),
+          (31, 'i32', -31, 31, 'i32', 0), (10, 'u32', 4, 40, 'i64', -30), (5, 'i8', 0, 5, 'u8', 0), (40, 'i32', -31, 9, 'i32', 0)]
+    rnd3 = random.Random(seed * 17 + 3)
+    for _ in range(4 if tier == 'quick' else 40):
+        dl, dr = rnd3.choice([3, 7, 8, 15, 16, 20, 31, 32, 40]), rnd3.choice([3, 7, 8, 15, 16, 20, 31, 32, 40])
+        el, er = rnd3.randint(-33, 33), rnd3.randint(-33, 33)
+        if dl + dr + abs(el - er) <= 120:
+            es.append((dl, rnd3.choice(list(CT)), el, dr, rnd3.choice(list(CT)), er))
+    dn = [(40, 'i32', 31), (40, 'i32', 32), (70, 'i32', 63), (70, 'i64', 63), (70, 'i64', 64), (33, 'u32', 31), (33, 'u32', 32), (20, 'i8', 7),
+          (20, 'i16', 15), (20, 'i8', 8), (20, 'u8', 8), (10, 'i32', 10), (10, 'i32', 3), (100, 'u64', 63), (100, 'i8', 64), (127, 'i32', 100)]
+    for i in range(0, len(es), 3):
+        body = '#include "%s"\nint main(){ install(); Rng rng(seed_from_env()+8000+%d);\n' % (__file__.replace('.py', '.h'), i)
+        for (dl, nl, el, dr, nr, er) in es[i:i + 3]:
+            body += '  sbin<%d, %s, %d, %d, %s, %d>(rng);\n' % (dl, CT[nl], el, dr, CT[nr], er)
+        if i == 0:
+            for (d, n, k) in dn:
+                body += '  scaledn<%d, %s, %d>(rng);\n' % (d, CT[n], k)
+        body += '}\n'
+        res.append(dict(name='C05_scaled_%d' % (i // 3), src=body, compiler='g++'))
+    # elastic_integer combined directly with built-in integers (from_value of a built-in operand)
+    mixed = [(8, 'u32', 'i32'), (8, 'u8', 'i8'), (20, 'i32', 'u32'), (40, 'u64', 'i64'), (10, 'i16', 'u8'), (31, 'i32', 'i64'), (5, 'u16', 'i32')]
+    rnd2 = random.Random(seed * 31 + 7)
+    for _ in range(3 if tier == 'quick' else 20):
+        mixed.append((rnd2.choice([3, 8, 16, 24, 33, 50]), rnd2.choice(list(CT)), rnd2.choice(list(CT))))
+    for i in range(0, len(mixed), 4):
+        body = '#include "%s"\nint main(){ install(); Rng rng(seed_from_env()+7000+%d);\n' % (__file__.replace('.py', '.h'), i)
+        for (d, n, t) in mixed[i:i + 4]:
+            body += '  binm<%d, %s, %s>(rng);\n' % (d, CT[n], CT[t])
+        body += '}\n'
+        res.append(dict(name='C05_mixed_%d' % (i // 4), src=body, compiler='g++'))
     return res
 
 
